@@ -34,6 +34,7 @@ def run(rep, prog, tier):
     r2(rep, prog)
     r3(rep, prog)
     r4(rep, prog)
+    r5(rep, prog)
 
 
 def r4(rep, prog):
@@ -81,6 +82,37 @@ def r4(rep, prog):
                   "cannot establish: %s calls no known pruning engine" % n, site=b.span)
     rep.floor(R, "implementations of Weight::for_each_pruning", len(impls), 3)
     rep.floor(R, "engine call sites", ncalls, 5)
+
+
+def r5(rep, prog):
+    """whoever moves the skip reader of a block cursor drops what was cached for the old block"""
+    from ..mergecov import Aliases, fmt_path
+    R = "C06-R5"
+    rep.rule(R, "block cursor coherence: every method of BlockSegmentPostings that moves its skip reader (SkipReader::advance / seek / reset) also stores into block_max_score_cache and block_loaded — the cached block-max score and the decoded block belong to the block the skip reader pointed at before; a stale block-max score makes block-WAND prune with the bound of another block")
+    pre = "tantivy::postings::block_segment_postings::BlockSegmentPostings::"
+    n = 0
+    for fid in sorted(prog.bodies):
+        if not fid.startswith(pre) or "{" in fid[len(pre):] or "::tests::" in fid:
+            continue
+        b = prog.bodies[fid]
+        if b.argc < 1 or not b.local_ty_str(1).startswith("&mut"):
+            continue
+        al = Aliases(b, {1: "self"})
+        moves = []
+        for bi, t in b.calls():
+            f = t.get("res") or t.get("f") or ""
+            if f.startswith("tantivy::postings::skip::SkipReader::") and f.split("::")[-1] in ("advance", "seek", "reset") and t.get("args"):
+                r = al.resolve(op_place(t["args"][0]))
+                if r and r[0] == "self" and r[1][:1] == (("f", "skip_reader"),):
+                    moves.append(bi)
+        if not moves:
+            continue
+        n += 1
+        w = {u[2][:1] for u in al.uses() if u[1] == "self" and u[0] in ("w", "rw") and u[2]}
+        missing = [x for x in ("block_max_score_cache", "block_loaded") if (("f", x),) not in w]
+        rep.check(not missing, R, "%s drops the per-block caches when it moves the skip reader" % short(fid), "stores block_max_score_cache and block_loaded",
+                  "`%s` moves the skip reader of the block cursor but does not reset %s: the cached value belongs to the previous block" % (fid, missing), site=site(b, moves[0]))
+    rep.floor(R, "BlockSegmentPostings methods that move the skip reader", n, 3)
 
 
 def r3(rep, prog):
